@@ -34,6 +34,13 @@ CLAIMS["C05"] = ("symbolic column-term evaluation; slot checks of the bit-sweep 
     "Decides the bit-sweep template of the kernel-type table (per type the merged intervals of that type's device rows, markers +v/-v with distinct powers of two, time-sorted cumsum, next_time = shift(-1), rows kept iff running > 0, labels by u & bit tests for u > 0, sum of segment durations per label, percentage = sum/total*100) and, for the per-kernel table on every path with and without allow-list, the provenance rule: sum/max/min/mean/std of each reported row are aggregated directly from the kernels' dur grouped by the final label (own name or 'others'), the relabelling is the complete table others iff not kept and (position >= num_kernels or beyond the duration quantile) on the sum-descending frame with a fresh index, under the guard rows > num_kernels; type list and argument bindings. Structure, not numbers.",
     "3/C05")
 
+CLAIMS["C14"] = ("symbolic column-term evaluation; event-log rules over the sort/concat/join/filter operations (tie-order accept set, no lossy row removal after the sweep); inverse-arithmetic agreement (- min_ts / + min_ts)",
+    "Decides the +1/-1 sweep template of the queue-length series (launch-name table & index_correlation > 0; activities = device rows whose correlation is among the launches'; launch rows take stream/pid/tid from their activity by a left join on correlation; sort by ts with launches before activities at equal timestamps - secondary key on the marker descending or a stable sort over the launches-first concat; per-stream cumsum; every row output or de-duplicated keeping the last row of an instant), the bandwidth template (dur 0 -> 1 before ts+dur, negated bandwidth at the end row, ts-sorted per-name cumsum), and that counter events add back exactly the attribute _align_all_ranks subtracted, with phase C and args {counter: value}; wrapper column names agree. Structure, not values.",
+    "3/C14")
+CLAIMS["C15"] = ("symbolic column-term evaluation over two symbolic ranks; name-table extraction; truth tables of the side predicates; call-site binding",
+    "Decides per rank, with and without memory events: correlation ids are collected from that rank's own rows whose name is the id of a launch call (kernel launches, plus memcpy/memset launches iff requested; ids looked up with default None and not filtered by truthiness), host side = stream == -1 and device side = stream != -1 both restricted to that set, inner join on correlation, launch_delay = max(ts_device - ts_host - dur_host, 0), cpu_duration/gpu_duration = host/device dur, the four documented columns; all facade arguments bound to like-named parameters.",
+    "3/C15")
+
 REASON_WIP = "checker under construction in this session (see DESIGN.md section 3); not claimed until its check is committed"
 
 
